@@ -10,6 +10,7 @@ fn main() {
     let tier_s = args.get(2).cloned().or_else(|| std::env::var("VERIF_TIER").ok()).unwrap_or_else(|| "quick".to_string());
     let tier = if tier_s == "thorough" { Tier::Thorough } else { Tier::Quick };
     let code = match args[1].as_str() {
+        "replay" => replay::run(args.get(2).map(|s| s.as_str()).unwrap_or("")),
         "C01" => c01::run(tier),
         "C02" => c02::run(tier),
         "C03" => fsx::c03(tier),
